@@ -63,6 +63,7 @@ class Gen:
         self.gather_labels = []   # labelled level-1 gathers: (full name, body of what follows the gather)
         self.label_bodies = {}
         self.kparams = {}         # knot / tunnel / thread name -> parameter names
+        self.kdivparams = {}      # parameter that takes a divert target -> the knots it may be given
         self.consts = {}          # CONST name -> integer value
         self.dvars = {}           # global that holds a divert target -> the knots it may hold (all of one kind)
 
@@ -487,8 +488,13 @@ class Gen:
         if not ps:
             return [], ""
         args, texts = [], []
-        for _ in ps:
-            a, ta = self.expr(1)
+        for p_ in ps:
+            if p_ in self.kdivparams:
+                # a parameter that takes a divert target: one of the knots it is allowed to name
+                v = self.r.choice(self.kdivparams[p_])
+                a, ta = {"k": "lit", "v": {"t": "div", "v": v}}, "-> " + v
+            else:
+                a, ta = self.expr(1)
             args.append(a)
             texts.append(ta)
         return args, "(%s)" % ", ".join(texts)
@@ -842,6 +848,15 @@ class Gen:
             for n in names[1:] + [x for x, _ in extra]:
                 if n not in self.stitched and self.p(0.5):
                     self.kparams[n] = ["p%s_%d" % (n, j) for j in range(r.randint(1, 2))]
+            if self.has("divert_vars"):
+                # a parameter that takes a divert target (`== k1(-> q) ==`, `-> q`): it is only ever given knots that come
+                # later than the knot itself and have no parameters of their own
+                for i, n in enumerate(names[1:], 1):
+                    later = [x for x in names[i + 1:] if x not in self.kparams]
+                    if n not in self.stitched and later and self.p(0.4):
+                        q = "q%s" % n
+                        self.kparams.setdefault(n, []).append(q)
+                        self.kdivparams[q] = later
         if self.has("divert_vars"):
             # globals that hold divert targets: d<i> a plain knot other than the entry knot, w<i> a tunnel; no parameters
             plain = [n for n in names[1:] if n not in self.kparams]
@@ -905,13 +920,18 @@ class Gen:
                 continue
             self.cur = n
             ps = self.kparams.get(n, [])
-            self.temps = list(ps)
+            self.temps = [x for x in ps if x not in self.kdivparams]
+            saved_dvars = dict(self.dvars)
+            for x in ps:
+                if x in self.kdivparams:
+                    self.dvars[x] = self.kdivparams[x]      # usable like a global that holds a divert target, in this knot
             self.after_choice = False
             b = self.body()                     # reserve the number: the knot's body comes first
             stmts, lines = self.knot_body(self.kinds[n])
+            self.dvars = saved_dvars
             self.bodies[b - 1] = stmts
             self.knots[n] = {"body": b, "kind": self.kinds[n], "params": ps, "chain": [n], "auto": False}
-            src.append("== %s%s ==" % (n, "(%s)" % ", ".join(ps) if ps else ""))
+            src.append("== %s%s ==" % (n, "(%s)" % ", ".join(("-> " + x) if x in self.kdivparams else x for x in ps) if ps else ""))
             src += lines
         src += fsrc
         prog = {"bodies": self.bodies, "knots": self.knots, "globals": self.globals, "root": root, "owner": self.owner,
